@@ -168,6 +168,19 @@ pub const EXTRAS_PREAMBLE: [Extra; 10] = [
     Extra::GetValuesNonNull,
 ];
 
+/// Preamble extras without any BeginRequest (for workloads that abort requests mid-preamble: a
+/// stray BeginRequest behind the abort would legitimately start a new request).
+pub const EXTRAS_PREAMBLE_NO_BEGIN: [Extra; 8] = [
+    Extra::GetValues,
+    Extra::GetValuesEmpty,
+    Extra::UnknownType,
+    Extra::ForeignStream,
+    Extra::ForeignAbort,
+    Extra::ForeignParams,
+    Extra::OddKnown,
+    Extra::GetValuesNonNull,
+];
+
 /// Reply-eliciting and stray records for the C04 workloads (adds unknown-role BeginRequests).
 pub const EXTRAS_PRE_REPLIES: [Extra; 9] = [
     Extra::GetValues,
@@ -567,6 +580,8 @@ pub struct ReqSpec {
     pub tag_base: u8,
     pub extras_pre: &'static [Extra],
     pub extras_stream: &'static [Extra],
+    /// adds the variable `XI=<marker>` so that a handler can tell which request it is serving
+    pub marker: Option<u8>,
 }
 
 #[derive(Clone, Debug)]
@@ -580,7 +595,12 @@ pub struct BuiltReq {
 
 pub fn push_request(rng: &mut Rng, out: &mut Vec<u8>, s: &ReqSpec) -> BuiltReq {
     let start = out.len();
-    let pairs = gen_pairs(rng, s.max_pairs, s.max_pair, s.big_pairs);
+    let mut pairs = gen_pairs(rng, s.max_pairs, s.max_pair, s.big_pairs);
+    if let Some(m) = s.marker {
+        pairs.retain(|p| !p.name.eq_ignore_ascii_case(b"XI"));
+        let at = rng.below(pairs.len() + 1);
+        pairs.insert(at, Pair { name: b"XI".to_vec(), value: vec![b'0' + m], f4n: false, f4v: false });
+    }
     let mut payload = Vec::new();
     for p in &pairs {
         p.encode(&mut payload);
